@@ -42,6 +42,11 @@ META = {
         "a custom threshold callable; for alns also a coin-flip callable that may reject improvements), elite sizes incl. 0 and >population, DE strategies valid for the population "
         "size, minimize/maximize all generated; ~55% of cases carry an on_progress callback (interval 1-3) that "
         "requests a stop at a generated iteration (30-45% of all cases really stop early). Each case: run, run again, run mirrored (-f, not minimize). "
+        "tabu_search is also run on small explicit state graphs (sub tabu_graph: 4-10 states, 2-3 move labels shared "
+        "by all states, distinct values, dead-end states; families trap = improving path whose last, now tabu, label also "
+        "leads from the path's end to a state that aspirates while a non-tabu label leads to a still better dead end / "
+        "descent / random). Vector objectives include linear (monotone) ones; bayesian_opt: dimension 2-3 in 90%, ei/ucb, "
+        "acq_restarts 1 (60%), 2, 3 or default, ~45% linear objectives, <= 9 objective calls per run. "
         "Non-trivial = in the proxy log a strictly worse value is recorded after the first occurrence of the best value "
         "(best != last). Distinct = canonical JSON of the case."
     ),
@@ -1308,7 +1313,7 @@ def bayes_cases(draw, tier="quick"):
         "minimize": not _chance(draw, 50),
         "max_iter": max_iter,
         "n_initial": n_initial,
-        "acquisition": draw(st.sampled_from(["ei", "ucb"])),
+        "acquisition": draw(st.sampled_from(["ucb", "ei"])),  # sampled_from leans to the first element
         "kappa": draw(st.sampled_from([0.0, 1.0, 2.0, 2.5])),
         "acq_restarts": restarts,
         "seed": draw(SEED),
